@@ -461,6 +461,11 @@ struct Conn {
     is_server: bool,
     /// every challenge seen on this connection (either direction), for the `h=` table
     chals: Vec<u32>,
+    /// the last challenge the NODE issued on this connection (its `ServerChallenge`, or the
+    /// challenge inside its `ChallengeReply`) and the last digest the NODE sent on it (inside its
+    /// `ChallengeReply` / `ChallengeAck`): all a cookie-less peer needs for a relay
+    last_issued: Option<u32>,
+    last_digest: Option<String>,
 }
 
 /// Bumped at every quiescence point; a watchdog thread aborts the run if the real code wedges
@@ -735,7 +740,7 @@ impl World {
         quiesce().await;
         let cell = self.node.get_children().into_iter().find(|c| !before.contains(&c.get_id()));
         let (r, w) = tokio::io::split(ours);
-        Conn { r, w: Some(w), buf: Vec::new(), cell, is_server, chals: Vec::new() }
+        Conn { r, w: Some(w), buf: Vec::new(), cell, is_server, chals: Vec::new(), last_issued: None, last_digest: None }
     }
 
     async fn spawn_probe(&mut self, remotable: bool, group: Option<(&str, &str)>) -> u64 {
@@ -897,13 +902,64 @@ fn env_fields(w: &mut World, k: u64, sent: &[String], desc: &str, known: Option<
     )
 }
 
+/// What a peer WITHOUT the cookie can read off the node's frames on connection `k`.
+fn note_node_frames(w: &mut World, k: u64, sent: &[String]) {
+    if let Some(c) = w.conns.get_mut(&k) {
+        for f in sent {
+            let p: Vec<&str> = f.split(':').collect();
+            match p.as_slice() {
+                ["schal", _, ch] => c.last_issued = ch.parse().ok(),
+                ["cchal", ch, dg] => {
+                    c.last_issued = ch.parse().ok();
+                    c.last_digest = Some(dg.to_string());
+                }
+                ["sack", dg] => c.last_digest = Some(dg.to_string()),
+                _ => {}
+            }
+        }
+    }
+}
+
 async fn op_send(w: &mut World, log: &mut Log, st: &mut Stats, k: u64, desc: &str) -> Vec<String> {
+    op_send_as(w, log, st, k, desc, format!("send {k} {desc}")).await
+}
+
+/// The relaying peer (no cookie): a frame on connection `k` built ONLY from what the node itself
+/// sent on connection `from`.
+///   `schal:<name>:<conn>`  a `ServerChallenge` carrying the challenge the node issued on `from`
+///   `cchal`                a `ChallengeReply` carrying the last digest the node sent on `from`
+///                          (and, as the peer's own challenge, the challenge the node issued on `from`)
+///   `sack`                 a `ChallengeAck` carrying the last digest the node sent on `from`
+/// Logged as `relay <k> <from> <kind> frame=<the frame written> …` (the driver replays `frame=` as
+/// an ordinary frame; on replay the frame is rebuilt from this run's values).
+async fn op_relay(w: &mut World, log: &mut Log, st: &mut Stats, k: u64, from: u64, kind: &str) -> Vec<String> {
+    let (issued, dg) = match w.conns.get(&from) {
+        Some(c) => (c.last_issued, c.last_digest.clone()),
+        None => (None, None),
+    };
+    let p: Vec<&str> = kind.split(':').collect();
+    let desc = match (p.as_slice(), issued, dg) {
+        (["schal", n, c], Some(ch), _) => format!("schal:{n}:{c}:{ch}"),
+        (["cchal"], Some(ch), Some(d)) => format!("cchal:{ch}:{d}"),
+        (["cchal"], None, Some(d)) => format!("cchal:7:{d}"),
+        (["sack"], _, Some(d)) => format!("sack:{d}"),
+        _ => {
+            log.rec(format!("relay {k} {from} {kind} frame=-"), "nothing-to-relay");
+            return vec![];
+        }
+    };
+    st.bump("lts_relay");
+    st.bump(&format!("lts_relay_{}", p[0]));
+    op_send_as(w, log, st, k, &desc, format!("relay {k} {from} {kind} frame={desc}")).await
+}
+
+async fn op_send_as(w: &mut World, log: &mut Log, st: &mut Stats, k: u64, desc: &str, head: String) -> Vec<String> {
     let Some(bytes) = encode_desc(desc) else {
-        log.rec(format!("send {k} {desc}"), "unparsable-in-replay");
+        log.rec(head, "unparsable-in-replay");
         return vec![];
     };
     if !w.conns.contains_key(&k) {
-        log.rec(format!("send {k} {desc}"), "no-such-connection");
+        log.rec(head, "no-such-connection");
         return vec![];
     }
     // what `GetSessions` lists right now (the `NodeSessions` handler asks for it in transitive mode)
@@ -934,7 +990,8 @@ async fn op_send(w: &mut World, log: &mut Log, st: &mut Stats, k: u64, desc: &st
         st.bump("lts_obs_listed");
     }
     let env = env_fields(w, k, &sent, desc, known);
-    log.rec(format!("send {k} {desc} len={} {env}", bytes.len() - 8), obs);
+    note_node_frames(w, k, &sent);
+    log.rec(format!("{head} len={} {env}", bytes.len() - 8), obs);
     note_killed(w, log, st, k).await;
     sent
 }
@@ -971,6 +1028,7 @@ async fn op_batch(w: &mut World, log: &mut Log, st: &mut Stats, k: u64, descs: &
         }
     }
     let env = env_fields(w, k, &sent, &joined, None);
+    note_node_frames(w, k, &sent);
     log.rec(format!("batch {k} {joined} len={} {env}", lens.join("+")), obs);
     note_killed(w, log, st, k).await;
     sent
@@ -993,6 +1051,7 @@ async fn op_open(w: &mut World, log: &mut Log, st: &mut Stats, k: u64, server: b
         })
         .unwrap_or(0);
     st.bump(if server { "lts_open_server" } else { "lts_open_client" });
+    note_node_frames(w, k, &sent);
     log.rec(
         format!(
             "open {k} {} thisname={} thisconn={} connid={connid} transitive={} path={}",
@@ -1175,9 +1234,14 @@ fn random_frame(w: &World, rng: &mut Rng, k: u64, chal: Option<u32>) -> String {
             if let (Some(l), true) = (w.bait.as_ref(), rng.chance(2, 3)) {
                 let a = l.local_addr().map(|a| a.to_string()).unwrap_or("127.0.0.1:1".into()).replace(':', "~");
                 // a peer the node does not know (connect), itself (skip), the asking peer (skip)
-                match rng.below(3) {
+                match rng.below(5) {
                     0 => format!("nodesessions:far@h^{a}"),
                     1 => format!("nodesessions:{}^{a};far2@h^{a}", w.name),
+                    // peers the node may already be connected to (by NAME): only the unknown one is dialled
+                    2 => format!("nodesessions:evil@h^{a};zed@h^{a}"),
+                    // … or by CONNECTION STRING (the adversary's sessions announce `pc` / `pc2`), and the
+                    // node's own connection string under a foreign name
+                    3 => format!("nodesessions:alias@h^pc;alias2@h^pc2;far3@h^{a};me2@h^{}", w.this_conn.clone().unwrap_or_default().replace(':', "~")),
                     _ => "nodesessions:-".to_string(),
                 }
             } else {
@@ -1376,6 +1440,98 @@ async fn lts_case(log: &mut Log, st: &mut Stats, rng: &mut Rng, case_no: u64) {
         }
     }
     op_connects(&mut w, log, st).await;
+    w.shutdown().await;
+}
+
+
+// ------------------------------------------------------------------ the relaying peer (no cookie at all)
+
+/// A peer that does NOT know the cookie and never computes a digest: every digest and every
+/// challenge it sends is copied from a frame the node itself sent on another session with it.
+///
+/// * variant 0 (one inbound + one outbound session of the node): the challenge the node issued on
+///   its server-side session S is handed back to the node as the `ServerChallenge` of its
+///   client-side session C; the node answers on C with `H cookie c`, which is exactly what S
+///   waits for; the `ChallengeAck` the node then sends on S is what C waits for.
+/// * variant 1 (two outbound sessions of the node, e.g. a reconnect loop): the challenge the node
+///   issued inside its `ChallengeReply` on C0 is handed to it as the `ServerChallenge` of C1; its
+///   `ChallengeReply` on C1 carries the digest C0 waits for.
+/// * controls: the relayed digest belongs to another challenge (must close), or nothing is relayed.
+async fn relay_case(log: &mut Log, st: &mut Stats, rng: &mut Rng, case_no: u64) {
+    let short = format!("node{}", case_no % 3);
+    set_cookies("", "");
+    let mut w = World::new(&short, 700_000 + case_no, false, None).await;
+    log.rec(
+        format!("node {short} transitive=0 limit={} cookie={} wrong={}", ractor_cluster::DEFAULT_MAX_INBOUND_FRAME_SIZE, cookie(), wrong_cookie()),
+        "ok",
+    );
+    w.spawn_probe(true, Some(("sc", "g1"))).await;
+    w.spawn_probe(false, Some(("sc", "g1"))).await;
+    let variant = rng.below(4);
+    st.bump(&format!("relay_variant_{variant}"));
+    let same_name = rng.chance(1, 4);
+    let n0 = "evil@h".to_string();
+    let n1 = if same_name { n0.clone() } else { "evil2@h".to_string() };
+    let ext = rng.chance(1, 2);
+    match variant {
+        0 | 2 => {
+            // S = connection 0 (server-side on the node), C = connection 1 (client-side on the node)
+            op_open(&mut w, log, st, 0, true, ext).await;
+            op_open(&mut w, log, st, 1, false, ext).await;
+            op_send(&mut w, log, st, 0, &format!("name:{n0}:pc:{}", rng.below(3))).await;
+            op_send(&mut w, log, st, 1, "sstatus:0").await;
+            if variant == 0 {
+                op_relay(&mut w, log, st, 1, 0, &format!("schal:{n1}:pc2")).await;
+            } else {
+                // control: a challenge of its own -> the digest it gets back is for another challenge
+                op_send(&mut w, log, st, 1, &format!("schal:{n1}:pc2:{}", rng.below(100_000))).await;
+            }
+            op_relay(&mut w, log, st, 0, 1, "cchal").await;
+            op_relay(&mut w, log, st, 1, 0, "sack").await;
+        }
+        _ => {
+            // C0 = connection 0, C1 = connection 1, both client-side on the node
+            op_open(&mut w, log, st, 0, false, ext).await;
+            op_open(&mut w, log, st, 1, false, ext).await;
+            op_send(&mut w, log, st, 0, "sstatus:0").await;
+            op_send(&mut w, log, st, 0, &format!("schal:{n0}:pc:{}", rng.below(100_000))).await;
+            op_send(&mut w, log, st, 1, "sstatus:0").await;
+            if variant == 1 {
+                op_relay(&mut w, log, st, 1, 0, &format!("schal:{n1}:pc2")).await;
+            } else {
+                op_send(&mut w, log, st, 1, &format!("schal:{n1}:pc2:{}", rng.below(100_000))).await;
+            }
+            if variant == 3 && rng.chance(1, 2) {
+                // control: echo the node's own ChallengeReply digest back on the same session
+                op_relay(&mut w, log, st, 0, 0, "sack").await;
+            } else {
+                op_relay(&mut w, log, st, 0, 1, "sack").await;
+            }
+            if rng.chance(1, 2) {
+                // a third outbound session of the node authenticates the second one the same way
+                op_open(&mut w, log, st, 2, false, ext).await;
+                op_send(&mut w, log, st, 2, "sstatus:0").await;
+                op_relay(&mut w, log, st, 2, 1, "schal:evil3@h:pc3").await;
+                op_relay(&mut w, log, st, 1, 2, "sack").await;
+            }
+        }
+    }
+    // whatever the outcome: the peer now tries to use both sessions
+    let rem = w.rem_now();
+    let target = rem.first().copied().unwrap_or(1);
+    let ks: Vec<u64> = w.conns.keys().copied().collect();
+    for _ in 0..rng.range(3, 7) {
+        let k = *rng.pick(&ks);
+        let f = match rng.below(6) {
+            0 => format!("cast:{target}"),
+            1 => format!("call:{target}:{}", rng.range(1, 9)),
+            2 => "spawn:1,2".to_string(),
+            3 => "pgjoin:sc:g2:1".to_string(),
+            4 => "enum:q@h:zz".to_string(),
+            _ => "ready".to_string(),
+        };
+        op_send(&mut w, log, st, k, &f).await;
+    }
     w.shutdown().await;
 }
 
@@ -1647,6 +1803,9 @@ async fn replay_ops(log: &mut Log, st: &mut Stats, path: &str) {
                     cur_issued.insert(k, c);
                 }
             }
+            ["relay", k, from, kind, ..] if world.is_some() => {
+                op_relay(world.as_mut().unwrap(), log, st, k.parse().unwrap_or(0), from.parse().unwrap_or(0), kind).await;
+            }
             ["batch", k, descs, ..] if world.is_some() => {
                 let k: u64 = k.parse().unwrap_or(0);
                 let fs: Vec<String> = descs.split('+').map(|x| x.to_string()).collect();
@@ -1707,6 +1866,9 @@ async fn run(args: Args) {
         authz_part(&mut log, &mut st, &mut rng, cases).await;
         for c in 0..cases {
             lts_case(&mut log, &mut st, &mut rng, c).await;
+            if c % 10 == 3 {
+                relay_case(&mut log, &mut st, &mut rng, c).await;
+            }
         }
     }
     st.write_json(&std::path::Path::new(&out).join("stats.json"));
